@@ -380,8 +380,8 @@ svx_write_header (SF_PRIVATE *psf, int calc_length)
 	psf_binheader_writef (psf, "Em4", BHWm (VHDR_MARKER), BHW4 (sizeof (VHDR_CHUNK))) ;
 	/* VHDR : oneShotHiSamples, repeatHiSamples, samplesPerHiCycle */
 	psf_binheader_writef (psf, "E444", BHW4 (psf->sf.frames), BHW4 (0), BHW4 (0)) ;
-	/* VHDR : samplesPerSec, octave, compression */
-	psf_binheader_writef (psf, "E211", BHW2 (psf->sf.samplerate), BHW1 (1), BHW1 (0)) ;
+	/* VHDR : samplesPerSec (a 16 bit field, so larger rates are stored as 65535), octave, compression */
+	psf_binheader_writef (psf, "E211", BHW2 (SF_MIN (psf->sf.samplerate, 0xFFFF)), BHW1 (1), BHW1 (0)) ;
 	/* VHDR : volume */
 	psf_binheader_writef (psf, "E4", BHW4 ((psf->bytewidth == 1) ? 0xFF : 0xFFFF)) ;
 
